@@ -93,7 +93,7 @@ pub fn scenarios(tier: &str) -> Vec<Scenario> {
 
 pub fn run(tier: &str) -> ! {
 	let mut run = Run::new("C07", tier, "model_checking");
-	let budget = Budget::new(if tier == "thorough" { 3000.0 } else { 100.0 });
+	let budget = Budget::new(if tier == "thorough" { 1500.0 } else { 100.0 });
 	run.set("rule", json!("graph search over histories of set/reference/dereference transactions x pipeline-stage events x reopen on a ref-counted column (hash and btree index); model = map key -> (value, count); oracle after every event: count>0 => readable with its value; when the commit queue is empty (all accepted commits logged) and after reopen: readable <=> count>0 and (hash index) iter_column_while = multiset of live (value,count)"));
 	run.assumptions = vec!["value is a function of the key (preimage contract)".into()];
 	super::run_scenarios(&mut run, &scenarios(tier), &budget);
